@@ -50,11 +50,29 @@ class Model(LogicType.Model[Meta.values]):
         self._check_not_finished()
         self._complete_frames()
         for w, frame in self.frames.items():
+            self._complete_identity(w)
             for pred in deque(frame.predicates):
                 self._agument_extension_with_identicals(pred, w)
             self._ensure_self_identity(w)
             self._ensure_self_existence(w)
         return super().finish()
+
+    def _complete_identity(self, w):
+        'Close the identity extension under symmetry and transitivity.'
+        interp = self.frames[w].predicates[Predicate.Identity]
+        while True:
+            pairs = set(interp.having('T'))
+            to_add = set()
+            for a, b in pairs:
+                to_add.add((b, a))
+                for c, d in pairs:
+                    if b == c:
+                        to_add.add((a, d))
+            to_add -= pairs
+            if not to_add:
+                break
+            for params in to_add:
+                interp[params] = 'T'
 
     def _ensure_self_identity(self, w):
         if not len(self.constants):
